@@ -654,3 +654,233 @@ def X2(vc):
               and all(out[kw['handler'].id] is r for kw, r in zip(calls, results)))
     vc.canary('canary.invokes_all_handlers', len(calls) == n)
     return ('return', n, [kw['handler'].id for kw in calls])
+
+
+# ----------------------------------------------------------------------------------------------- H8
+class _Var:
+    """contextvars.ContextVar by contract: a cell with get()/set()."""
+    def __init__(self, name, value):
+        self.name, self.value, self.sets = name, value, []
+
+    def get(self, *default):
+        return self.value
+
+    def set(self, value):
+        self.sets.append(value)
+        self.value = value
+
+
+class _CycleState:
+    """progression.State by contract (G3) as seen by subhandling.execute: every derivation is a fresh abstract
+    state that remembers how it was made; `done`/`delay`/the ids of the final state are symbolic/arbitrary."""
+    def __init__(self, vc, tag, parent=None, args=None):
+        self.vc, self.tag, self.parent, self.args = vc, tag, parent, args
+        self._done = self._delay = None
+
+    def _derive(self, tag, *args):
+        s = _CycleState(self.vc, tag, self, args)
+        self.vc.emit('state.' + tag, s)
+        return s
+
+    def with_purpose(self, purpose, handlers=()): return self._derive('with_purpose', purpose, handlers)
+    def with_handlers(self, handlers): return self._derive('with_handlers', handlers)
+    def with_outcomes(self, outcomes): return self._derive('with_outcomes', outcomes)
+
+    def lineage(self):
+        out, s = [], self
+        while s is not None:
+            out.append((s.tag, s.args)); s = s.parent
+        return out[::-1]
+
+    @property
+    def done(self):
+        if self._done is None:
+            self._done = self.vc.bool(f'done[{self.tag}]')
+        return self._done
+
+    @property
+    def delay(self):
+        if self._delay is None:
+            self._delay = (self.vc.opt(f'delay[{self.tag}]', self.vc.real),)
+        return self._delay[0]
+
+    KEYS = ('parent/sub-a', 'parent/sub-b', 'stale/other')
+
+    def __iter__(self):
+        return iter(self.KEYS)
+
+    def store(self, body, patch, storage): self.vc.emit('store', self, body, patch, storage)
+
+
+@harness('H8', targets='kopf._core.reactor.subhandling.execute', props=['C02'],
+         clauses=['children_retry_iff_not_done', 'state_threaded', 'stored_before_escalation', 'subrefs_registered',
+                  'implicit_once', 'registry_from_arguments', 'rejects_bad_usage', 'errors_propagate'],
+         canaries=['canary.never_retries', 'canary.always_executes'],
+         trusted=['progression.State by contract G3/G4 (from_storage/with_purpose/with_handlers/with_outcomes/done/delay/'
+                  'store)', 'execution.execute_handlers_once by contract X2',
+                  'registries.ChangingRegistry.append/get_resource_handlers/get_handlers by contract R1',
+                  'contextvars as plain cells (set by execution.invoke_handler for the running handler)'])
+def H8(vc):
+    """
+    kopf.execute() inside a handler: the sub-handlers are executed against the progress restored from the
+    object -- from_storage(body=cause.body, storage=settings.persistence.progress_storage, handlers=<owned>)
+    .with_purpose(cause.reason).with_handlers(<selected>) -- by execute_handlers_once (X2: only awakened ones,
+    with their own records); the outcomes are merged and the new state is stored into cause.patch; then
+    HandlerChildrenRetry(delay=state.delay) is raised IFF that state is not done -- so (X1) the parent's outcome
+    is not final while any sub-handler is unfinished, and the parent can finish once they all are.  Every id of the
+    final state is added to every subrefs container of the enclosing handlers (for the final purge).  Implicit
+    use (no arguments) runs at most once per parent invocation.  Sub-handler ids are prefixed with the parent's
+    id.  Wrong usage (several sources, fns of a wrong kind, a non-changing cause) raises before anything is
+    executed or stored; an exception out of execute_handlers_once propagates with nothing stored.
+    """
+    from kopf._core.intents import causes, handlers as handlers_
+    mode = ['implicit', 'implicit-again', 'fns-mapping', 'fns-iterable', 'fns-bad', 'handlers', 'registry', 'two-sources',
+            'wrong-cause'][vc.nondet(9, 'usage')]
+    body, patch, resource = Opaque('body'), Opaque('patch'), Opaque('resource')
+    reason = resolve(vc.fin('cause.reason', [causes.Reason.CREATE, causes.Reason.UPDATE, causes.Reason.RESUME]))
+
+    class ChangingCause(causes.ChangingCause):
+        def __init__(self): pass
+    cause = ChangingCause()
+    cause.body, cause.patch, cause.resource, cause.reason, cause.logger = body, patch, resource, reason, NullLogger()
+    if mode == 'wrong-cause':
+        cause = Opaque('daemon-cause', body=body, patch=patch, resource=resource, reason=reason)
+    parent = Opaque('parent-handler', id='parent')
+    storage = Opaque('progress_storage')
+    settings = Opaque('settings', persistence=Opaque('persistence', progress_storage=storage))
+    default_lifecycle, context_lifecycle, given_lifecycle = Opaque('default-lifecycle'), Opaque('context-lifecycle'), Opaque('given-lifecycle')
+    lc = vc.nondet(3, 'lifecycle: argument / context / default')
+    containers = [{'grand/x'}, set()]
+    containers_before = [set(c) for c in containers]
+    V = dict(sublifecycle_var=_Var('sublifecycle', context_lifecycle if lc == 1 else None),
+             cause_var=_Var('cause', cause), handler_var=_Var('handler', parent),
+             subsettings_var=_Var('subsettings', settings), subrefs_var=_Var('subrefs', containers))
+    subexecuted = _Var('subexecuted', mode == 'implicit-again')
+    owned, selected = Opaque('owned_handlers'), Opaque('cause_handlers', truth=vc.bool('selected-nonempty'))
+
+    class Registry:
+        made = []
+
+        def __init__(self):
+            self.appended = []
+            Registry.made.append(self)
+
+        def append(self, handler): self.appended.append(handler)
+        def get_resource_handlers(self, resource): vc.emit('get_resource_handlers', self, resource); return owned
+        def get_handlers(self, cause): vc.emit('get_handlers', self, cause); return selected
+    vc.used('registries.ChangingRegistry', 'R1')
+    context_registry, given_registry = Registry(), Registry()
+    Registry.made.clear()
+    subregistry = _Var('subregistry', context_registry)
+
+    def generate_id(fn, id, prefix=None, suffix=None):
+        return f'{prefix}/{id if id is not None else fn.__name__}'
+    s0 = _CycleState(vc, 'from_storage')
+
+    class StateCls:
+        @staticmethod
+        def from_storage(*, body, storage, handlers):
+            vc.emit('from_storage', body, storage, handlers); return s0
+    outcomes = Opaque('outcomes')
+    boom = []
+
+    async def execute_handlers_once(**kw):
+        vc.emit('execute', kw)
+        await suspend('execute_handlers_once')
+        if vc.nondet(2, 'execute_handlers_once: returns / cancelled') == 1:
+            boom.append(__import__('asyncio').CancelledError())
+            raise boom[0]
+        return outcomes
+    vc.used('execution.execute_handlers_once', 'X2'); vc.used('progression.State', 'G3')
+    stubs = {f'execution.{k}': v for k, v in V.items()}
+    stubs.update({'execution.execute_handlers_once': execute_handlers_once,
+                  'lifecycles.get_default_lifecycle': lambda: default_lifecycle,
+                  'subexecuted_var': subexecuted, 'subregistry_var': subregistry,
+                  'registries.ChangingRegistry': Registry, 'registries.generate_id': generate_id,
+                  'progression.State': StateCls,
+                  'progression.deliver_results': lambda **kw: vc.emit('deliver_results', kw)})
+    ld = vc.load('kopf._core.reactor.subhandling', 'execute', stubs=stubs)
+
+    def fn_a(**_): pass
+    def fn_b(**_): pass
+    pre_made = handlers_.ChangingHandler(
+        fn=fn_a, id='explicit-id', param=None, errors=None, timeout=None, retries=None, backoff=None, selector=None,
+        labels=None, annotations=None, when=None, initial=None, deleted=None, requires_finalizer=None, reason=None,
+        field=None, value=None, old=None, new=None, field_needs_change=None)
+    kwargs = {'implicit': {}, 'implicit-again': {}, 'fns-mapping': {'fns': {'x': fn_a, 'y': fn_b}},
+              'fns-iterable': {'fns': [fn_a, fn_b]}, 'fns-bad': {'fns': 42}, 'handlers': {'handlers': [pre_made]},
+              'registry': {'registry': given_registry}, 'two-sources': {'fns': [fn_a], 'registry': given_registry},
+              'wrong-cause': {'registry': given_registry}}[mode]
+    if lc == 0:
+        kwargs['lifecycle'] = given_lifecycle
+    if vc.nondet(2, 'cause: from the context / as an argument') == 1:
+        V['cause_var'].value = Opaque('another-cause-in-context')
+        kwargs['cause'] = cause
+    escaped = None
+    try:
+        result = vc.drive(ld.fn(**kwargs))
+    except BaseException as e:
+        if isinstance(e, (PathEnd, Unsupported)):
+            raise
+        escaped = e
+    tr = vc.trace
+    names = [ev[0] for ev in tr]
+    executed = 'execute' in names
+    vc.canary('canary.always_executes', executed)
+    untouched = all(c == b for c, b in zip(containers, containers_before)) and 'store' not in names \
+        and 'deliver_results' not in names
+    if mode in ('fns-bad', 'two-sources', 'wrong-cause'):
+        expected = {'fns-bad': ValueError, 'two-sources': TypeError, 'wrong-cause': RuntimeError}[mode]
+        vc.ensure('rejects_bad_usage', type(escaped) is expected and not executed and untouched)
+        return ('rejected', mode, type(escaped).__name__)
+    if mode == 'implicit-again':
+        vc.ensure('implicit_once', escaped is None and not executed and untouched and 'from_storage' not in names)
+        return ('skipped', mode)
+    if mode == 'implicit':
+        vc.ensure('implicit_once', subexecuted.value is True)
+    else:
+        vc.ensure('implicit_once', subexecuted.value is False and not subexecuted.sets)
+    vc.ensure('state_threaded', executed and names.count('execute') == 1)
+    if not executed:
+        return ('not-executed', mode)
+    # which registry, built how
+    reg = {'implicit': context_registry, 'registry': given_registry}.get(mode) or (Registry.made[0] if Registry.made else None)
+    vc.ensure('registry_from_arguments', reg is not None and len(Registry.made) == (0 if mode in ('implicit', 'registry') else 1))
+    if mode in ('fns-mapping', 'fns-iterable'):
+        vc.ensure('registry_from_arguments', [(h.id, h.fn) for h in reg.appended] ==
+                  ([('parent/x', fn_a), ('parent/y', fn_b)] if mode == 'fns-mapping' else [('parent/fn_a', fn_a), ('parent/fn_b', fn_b)]))
+    elif mode == 'handlers':
+        vc.ensure('registry_from_arguments', len(reg.appended) == 1 and reg.appended[0] is pre_made)
+    else:
+        vc.ensure('registry_from_arguments', reg.appended == [])
+    for ev in tr:
+        if ev[0] in ('get_resource_handlers', 'get_handlers'):
+            vc.ensure('registry_from_arguments', ev[1] is reg and ev[2] is (resource if ev[0] == 'get_resource_handlers' else cause))
+    # the state handed to the execution: restored from the object, for this purpose, with the selected handlers
+    kw = [ev[1] for ev in tr if ev[0] == 'execute'][0]
+    lifecycle_spec = [given_lifecycle, context_lifecycle, default_lifecycle][lc]
+    vc.ensure('state_threaded', [ev[1:] for ev in tr if ev[0] == 'from_storage'] == [(body, storage, owned)])
+    vc.ensure('state_threaded', isinstance(kw['state'], _CycleState) and kw['state'].lineage() ==
+              [('from_storage', None), ('with_purpose', (reason, ())), ('with_handlers', (selected,))])
+    vc.ensure('state_threaded', kw['handlers'] is selected and kw['cause'] is cause and kw['settings'] is settings
+              and kw['lifecycle'] is lifecycle_spec)
+    if boom:
+        vc.ensure('errors_propagate', escaped is boom[0] and untouched)
+        return ('cancelled', mode)
+    final = [ev[1] for ev in tr if ev[0] == 'state.with_outcomes']
+    vc.ensure('state_threaded', len(final) == 1 and final[0].parent is kw['state'] and final[0].args == (outcomes,))
+    final = final[0]
+    stores = [ev for ev in tr if ev[0] == 'store']
+    vc.ensure('stored_before_escalation', len(stores) == 1 and stores[0][1:] == (final, body, patch, storage))
+    delivered = [ev[1] for ev in tr if ev[0] == 'deliver_results']
+    vc.ensure('stored_before_escalation', delivered == [{'outcomes': outcomes, 'patch': patch}])
+    vc.ensure('subrefs_registered', all(c == b | set(final.KEYS) for c, b in zip(containers, containers_before))
+              and V['subrefs_var'].value is containers and len(containers) == 2)
+    retry = isinstance(escaped, execution.HandlerChildrenRetry)
+    vc.ensure('children_retry_iff_not_done', Iff(retry, Not(final.done)))
+    vc.ensure('children_retry_iff_not_done', retry or escaped is None)
+    if retry:
+        vc.ensure('children_retry_iff_not_done', escaped.delay is final.delay if final.delay is None
+                  else Eq(escaped.delay, final.delay))
+    vc.canary('canary.never_retries', not retry)
+    return ('executed', mode, retry)
